@@ -58,19 +58,12 @@ fn c13_write_validation() {
     core::mem::forget(env);
 }
 
-// @harness c01_write_split
-// @props C01 C13 C16
-// @tier quick
-// @timeout 1200
-// @needs WF
-// @desc the whole body of __write_at with its awaited callees shimmed: a rejected request reaches no mapping update and no write; an accepted request is cut into pieces that, in order, exactly partition [offset, offset+len), none crossing a cluster boundary, piece k carrying the L2 entry of the k-th guest cluster of the request and the k-th consecutive sub-range of the caller's buffer; mappings are populated once, for exactly the request range
-// @bounds offset: all u64; len: all block-aligned values spanning <= 4 clusters; virtual size <= 2^63; full symbolic geometry; L2 entries arbitrary
-// @funcs Qcow2Dev::__write_at (whole body; populate_*_write_mapping(s) and do_write replaced by recorders)
-// @stub alloc::fmt::format -> String::new()
+macro_rules! c01_write_split_h {
+    ($name:ident, $span:expr) => {
 #[kani::proof]
 #[kani::unwind(10)]
 #[kani::stub(std::fmt::format, fmt_stub2)]
-fn c01_write_split() {
+fn $name() {
     let g = any_geo();
     let vsize: u64 = kani::any();
     kani::assume(vsize <= 1u64 << 63);
@@ -85,7 +78,7 @@ fn c01_write_split() {
     let offset: u64 = kani::any();
     let len: usize = kani::any();
     let cs = 1u64 << g.cb;
-    kani::assume(len >= 1 && (len as u64) <= 3 * cs + cs / 2);
+    kani::assume(len >= 1 && (len as u64) <= $span * cs + cs / 2);
     let r = env.seg_wf(KBuf::new(len), offset);
     let bs = 1u64 << g.bs;
     let valid = (len as u64) % bs == 0 && offset % bs == 0
@@ -105,7 +98,7 @@ fn c01_write_split() {
         let mut pos = offset;
         let mut bpos = 0usize;
         let mut k = 0;
-        while k < 5 {
+        while k < 7 {
             if k < pieces {
                 let w = env.get_rec(k + 1);
                 assert!(w.kind == K_WRITE);
@@ -119,7 +112,7 @@ fn c01_write_split() {
             k += 1;
         }
         assert!(pos == offset + len as u64 && bpos == len);
-        kani::cover!(pieces == 4 && offset & (cs - 1) != 0, "unaligned start, 4 clusters");
+        kani::cover!(pieces as u64 == $span + 1 && offset & (cs - 1) != 0, "unaligned start, maximal span");
         kani::cover!(pieces == 1);
         kani::cover!(pieces == 2 && len as u64 <= cs, "sub-cluster length straddling a boundary");
     }
@@ -127,3 +120,28 @@ fn c01_write_split() {
     core::mem::forget(r);
     core::mem::forget(env);
 }
+    };
+}
+
+// @harness c01_write_split
+// @props C01 C13 C16
+// @tier quick
+// @timeout 1200
+// @needs WF
+// @desc the whole body of __write_at with its awaited callees shimmed: a rejected request reaches no mapping update and no write; an accepted request is cut into pieces that, in order, exactly partition [offset, offset+len), none crossing a cluster boundary, piece k carrying the L2 entry of the k-th guest cluster of the request and the k-th consecutive sub-range of the caller's buffer; mappings are populated once, for exactly the request range
+// @bounds offset: all u64; len: all block-aligned values spanning <= 4 clusters; virtual size <= 2^63; full symbolic geometry; L2 entries arbitrary
+// @funcs Qcow2Dev::__write_at (whole body; populate_*_write_mapping(s) and do_write replaced by recorders)
+// @stub alloc::fmt::format -> String::new()
+c01_write_split_h!(c01_write_split, 3);
+
+// @harness c01_write_split_6
+// @props C01 C13 C16
+// @tier thorough
+// @cost 400
+// @timeout 3000
+// @needs WF
+// @desc the whole body of __write_at with its awaited callees shimmed: a rejected request reaches no mapping update and no write; an accepted request is cut into pieces that, in order, exactly partition [offset, offset+len), none crossing a cluster boundary, piece k carrying the L2 entry of the k-th guest cluster of the request and the k-th consecutive sub-range of the caller's buffer; mappings are populated once, for exactly the request range
+// @bounds offset: all u64; len: all block-aligned values spanning <= 6 clusters; virtual size <= 2^63; full symbolic geometry; L2 entries arbitrary
+// @funcs Qcow2Dev::__write_at (whole body; populate_*_write_mapping(s) and do_write replaced by recorders)
+// @stub alloc::fmt::format -> String::new()
+c01_write_split_h!(c01_write_split_6, 5);
